@@ -38,7 +38,8 @@ type (
 
 type evType struct {
 	sub    func(bus *eventbus.EventBus, fn func(Ev), so ...eventbus.SubscribeOption)
-	subCtx func(bus *eventbus.EventBus, fn func(Ev), so ...eventbus.SubscribeOption)
+	subCtx func(bus *eventbus.EventBus, fn func(context.Context, Ev), so ...eventbus.SubscribeOption)
+	pubCtx func(bus *eventbus.EventBus, ctx context.Context, e Ev, viaAny bool)
 	pub    func(bus *eventbus.EventBus, e Ev)
 	pubAny func(bus *eventbus.EventBus, e Ev) // through the static type any
 }
@@ -51,8 +52,15 @@ func mkType[T ~struct {
 		sub: func(bus *eventbus.EventBus, fn func(Ev), so ...eventbus.SubscribeOption) {
 			eventbus.Subscribe(bus, func(e T) { fn(Ev(e)) }, so...)
 		},
-		subCtx: func(bus *eventbus.EventBus, fn func(Ev), so ...eventbus.SubscribeOption) {
-			eventbus.SubscribeContext(bus, func(_ context.Context, e T) { fn(Ev(e)) }, so...)
+		subCtx: func(bus *eventbus.EventBus, fn func(context.Context, Ev), so ...eventbus.SubscribeOption) {
+			eventbus.SubscribeContext(bus, func(ctx context.Context, e T) { fn(ctx, Ev(e)) }, so...)
+		},
+		pubCtx: func(bus *eventbus.EventBus, ctx context.Context, e Ev, viaAny bool) {
+			if viaAny {
+				eventbus.PublishContext[any](bus, ctx, T(e))
+			} else {
+				eventbus.PublishContext(bus, ctx, T(e))
+			}
 		},
 		pub:    func(bus *eventbus.EventBus, e Ev) { eventbus.Publish(bus, T(e)) },
 		pubAny: func(bus *eventbus.EventBus, e Ev) { eventbus.Publish[any](bus, T(e)) },
@@ -99,9 +107,9 @@ func (c *Case) typesInUse() []evType {
 type H struct {
 	Ctx     bool `json:"ctx,omitempty"`
 	Once    bool `json:"once,omitempty"`
-	SleepMs int  `json:"sleep_ms"`           // fake duration of every invocation
-	Nest    int  `json:"nest,omitempty"`     // number of further events it publishes (while depth < MaxDepth)
-	Gate    bool `json:"gate,omitempty"`     // blocks on the harness gate instead of sleeping
+	SleepMs int  `json:"sleep_ms"`       // fake duration of every invocation
+	Nest    int  `json:"nest,omitempty"` // number of further events it publishes (while depth < MaxDepth)
+	Gate    bool `json:"gate,omitempty"` // blocks on the harness gate instead of sleeping
 }
 
 type Case struct {
@@ -112,11 +120,11 @@ type Case struct {
 	Procs    int    `json:"procs"`
 	End      string `json:"end"` // wait, shutdown_bg, shutdown_cancelled, shutdown_timeout
 	// shutdown_timeout: timeout relative to the work: "shorter", "longer", "equal"
-	Rel       string `json:"rel,omitempty"`
-	CloseErr  bool   `json:"close_err,omitempty"`
-	NoCloser  bool   `json:"no_closer,omitempty"` // store without Close
-	NoStore   bool   `json:"no_store,omitempty"`
-	Ambient   int    `json:"ambient,omitempty"`
+	Rel      string `json:"rel,omitempty"`
+	CloseErr bool   `json:"close_err,omitempty"`
+	NoCloser bool   `json:"no_closer,omitempty"` // store without Close
+	NoStore  bool   `json:"no_store,omitempty"`
+	Ambient  int    `json:"ambient,omitempty"`
 	// Types: event type (index into evTypes) used at nesting depth d is
 	// Types[d % len]; empty = one type for everything.
 	Types []int `json:"types,omitempty"`
@@ -126,6 +134,11 @@ type Case struct {
 	Retry bool `json:"retry,omitempty"`
 	// ViaAny: publishes go through the static type any (Publish[any]).
 	ViaAny bool `json:"via_any,omitempty"`
+	// NestCtx: context-aware handlers publish their nested work with the
+	// context they were handed (PublishContext(bus, ctx, next)); the
+	// top-level publishes then carry a live context of their own that is
+	// never cancelled.
+	NestCtx bool `json:"nest_ctx,omitempty"`
 }
 
 type closeStore struct {
@@ -236,7 +249,7 @@ func bubble(c *Case, o *vkit.Outcome) {
 	bus := eventbus.New(opts...)
 	var nextID atomic.Int32
 	nextID.Store(1000)
-	body := func(hi int, e Ev) {
+	body := func(hi int, hctx context.Context, e Ev) {
 		h := c.Handlers[hi]
 		started.Add(1)
 		if h.Gate {
@@ -246,7 +259,12 @@ func bubble(c *Case, o *vkit.Outcome) {
 		}
 		if e.Depth < c.MaxDepth && !h.Once {
 			for k := 0; k < h.Nest; k++ {
-				c.publish(bus, e.Depth+1, Ev{ID: int(nextID.Add(1)), Depth: e.Depth + 1})
+				next := Ev{ID: int(nextID.Add(1)), Depth: e.Depth + 1}
+				if c.NestCtx && hctx != nil {
+					c.typeAt(e.Depth+1).pubCtx(bus, hctx, next, c.ViaAny)
+				} else {
+					c.publish(bus, e.Depth+1, next)
+				}
 			}
 		}
 		completed.Add(1)
@@ -265,9 +283,9 @@ func bubble(c *Case, o *vkit.Outcome) {
 				continue
 			}
 			if h.Ctx {
-				et.subCtx(bus, func(e Ev) { body(hi, e) }, so...)
+				et.subCtx(bus, func(ctx context.Context, e Ev) { body(hi, ctx, e) }, so...)
 			} else {
-				et.sub(bus, func(e Ev) { body(hi, e) }, so...)
+				et.sub(bus, func(e Ev) { body(hi, nil, e) }, so...)
 			}
 		}
 	}
